@@ -1,0 +1,56 @@
+//go:build verif
+
+package dtlcp
+
+// Verification hooks (build tag `verif` only) for the stateless cookie exchange: thin
+// wrappers that let the correspondence harness call the unexported cookie helpers and
+// observe the per-connection cookie secret. Nothing here is compiled without the tag.
+
+// VerifGenerateCookie calls generateCookie.
+func VerifGenerateCookie(secret []byte, clientAddr string, clientParams []byte) []byte {
+	return generateCookie(secret, clientAddr, clientParams)
+}
+
+// VerifVerifyCookie calls verifyCookie.
+func VerifVerifyCookie(secret []byte, clientAddr string, clientParams, cookie []byte) bool {
+	return verifyCookie(secret, clientAddr, clientParams, cookie)
+}
+
+// VerifHelloFields is what clientHelloMsg.unmarshal decoded from a handshake message, as
+// far as the cookie computation is concerned.
+type VerifHelloFields struct {
+	Vers         uint16
+	Random       []byte
+	SessionID    []byte
+	Cookie       []byte
+	CipherSuites []uint16
+	Compression  []byte
+}
+
+// VerifParseClientHello runs clientHelloMsg.unmarshal on a complete handshake message
+// (12-byte DTLCP handshake header followed by the body) and, when it decodes, returns the
+// decoded fields and marshalForCookie() of the decoded message.
+func VerifParseClientHello(msg []byte) (ok bool, f VerifHelloFields, cookieParams []byte) {
+	m := new(clientHelloMsg)
+	if !m.unmarshal(append([]byte(nil), msg...)) {
+		return false, f, nil
+	}
+	f = VerifHelloFields{Vers: m.vers, Random: m.random, SessionID: m.sessionId, Cookie: m.cookie,
+		CipherSuites: m.cipherSuites, Compression: m.compressionMethods}
+	return true, f, m.marshalForCookie()
+}
+
+// VerifMarshalHelloVerifyRequest returns helloVerifyRequestMsg.marshal() for the given
+// cookie and message sequence number (handshake header + body, no record header).
+func VerifMarshalHelloVerifyRequest(cookie []byte, seq uint16) []byte {
+	m := &helloVerifyRequestMsg{serverVersion: VersionTLCP, cookie: cookie}
+	m.setMessageSeq(seq)
+	b, _ := m.marshal()
+	return b
+}
+
+// VerifEffectiveCookieSecret returns the secret the connection uses for cookies
+// (the configured one, or the connection's own random one, drawn on first use).
+func VerifEffectiveCookieSecret(c *Conn) []byte {
+	return append([]byte(nil), c.effectiveCookieSecret()...)
+}
